@@ -322,7 +322,7 @@ def c19_run(ctx):
     ctx.extra["amalgamation_identical"] = j is None
     if j:
         ctx.failures.append(j)
-    # (ii) feature neutrality: a scenario that uses the feature set U (nothing, or exactly one of plans / history /
+    # (ii) feature neutrality: a scenario that uses the feature set U (nothing, one or several of plans / history /
     # serialization) must run identically under every superset of U — enabling a switch the program does not use
     # never changes what it observes.  Projection: log records and the fields of unused features are dropped.
     import itertools
@@ -342,9 +342,12 @@ def c19_run(ctx):
             out.append(l)
         return out
 
-    scenarios = [((), False), ((), True), (("plans",), False), (("history",), False), (("serial",), True)]
+    # (programs that use two features at once, too: a switch the program does not use may sit between the code of two
+    #  features it does use — seed C19e moved load()'s plan reset inside the history `#if`)
+    scenarios = [((), False), ((), True), (("plans",), False), (("history",), False), (("serial",), True), (("plans", "serial"), False)]
     if ctx.thorough:
-        scenarios += [(("plans",), True), (("history",), True), (("serial",), False), (("plans", "serial"), False)]
+        scenarios += [(("plans",), True), (("history",), True), (("serial",), False), (("plans", "serial"), True),
+                      (("plans", "history"), False), (("history", "serial"), True), (("plans", "history", "serial"), False)]
     extras = [(), ("FFSM2_ENABLE_STRUCTURE_REPORT",), ("FFSM2_ENABLE_DEBUG_STATE_TYPE",), ("FFSM2_DISABLE_TYPEINDEX",),
               ("FFSM2_ENABLE_STRUCTURE_REPORT", "FFSM2_ENABLE_DEBUG_STATE_TYPE", "FFSM2_DISABLE_TYPEINDEX")]
     cases = []
